@@ -19,6 +19,12 @@ type GoPanic struct {
 
 type abortRun struct{ why string }
 
+type fnInfo struct {
+	name     string
+	intr     intrinsic
+	skipInit bool
+}
+
 type deferred struct {
 	fn   Value
 	args []Value
@@ -129,12 +135,19 @@ func (t *Thread) callValue(fnv Value, args []Value, site ssa.Instruction) Value 
 
 func (t *Thread) callFn(fn *ssa.Function, args []Value, env []Value, site ssa.Instruction) Value {
 	r := t.run
-	name := fn.String()
-	if intr, ok := intrinsics[name]; ok {
-		r.intrHit[name]++
-		return intr(t, args)
+	fi, ok := r.e.fnInfo[fn]
+	if !ok {
+		fi = &fnInfo{name: fn.String()}
+		fi.intr = intrinsics[fi.name]
+		fi.skipInit = fn.Synthetic == "package initializer" && fn.Pkg != nil && !r.e.P.initAllowed(fn.Pkg)
+		r.e.fnInfo[fn] = fi
 	}
-	if fn.Synthetic == "package initializer" && fn.Pkg != nil && !r.e.P.initAllowed(fn.Pkg) {
+	name := fi.name
+	if fi.intr != nil {
+		r.intrHit[name]++
+		return fi.intr(t, args)
+	}
+	if fi.skipInit {
 		return nil
 	}
 	if fn.Blocks == nil {
